@@ -139,7 +139,7 @@ func runCloneOf(o Outcome, mk func() *rtp.Packet) Outcome {
 		muts = append(muts, mut{fmt.Sprintf("DelExtension(%d)", id), func(p *rtp.Packet) { _ = p.DelExtension(id) }})
 		muts = append(muts, mut{fmt.Sprintf("SetExtension(%d, new value)", id), func(p *rtp.Packet) { _ = p.SetExtension(id, []byte{0x5A}) }})
 	}
-	if orig.Extension && (orig.ExtensionProfile == 0xBEDE || orig.ExtensionProfile == 0x1000) {
+	if orig.Extension && (orig.ExtensionProfile == 0xBEDE || isTwoByte(orig.ExtensionProfile)) {
 		muts = append(muts, mut{"SetExtension(new id)", func(p *rtp.Packet) {
 			for id := uint8(1); id <= 14; id++ {
 				if p.GetExtension(id) == nil {
@@ -171,7 +171,7 @@ func runCloneOf(o Outcome, mk func() *rtp.Packet) Outcome {
 				_ = who
 			}
 			// then the other side adds an extension of its own: the first side must not see it
-			if other.Extension && (other.ExtensionProfile == 0xBEDE || other.ExtensionProfile == 0x1000) {
+			if other.Extension && (other.ExtensionProfile == 0xBEDE || isTwoByte(other.ExtensionProfile)) {
 				afterT := snapshotPacket(target)
 				for id := uint8(14); id >= 1; id-- {
 					if other.GetExtension(id) == nil {
@@ -220,7 +220,7 @@ func init() {
 				if c.Intn(6) == 0 {
 					pl = nil // no payload slice at all (padding-only packets are built like this)
 				}
-				if c.Intn(3) == 0 && d.ext && (d.profile == 0xBEDE || d.profile == 0x1000) {
+				if c.Intn(3) == 0 && d.ext && (d.profile == 0xBEDE || isTwoByte(d.profile)) {
 					// a header with a history: delete some or all elements, maybe set one again
 					pre := TList{}
 					for _, e := range d.exts {
